@@ -738,7 +738,7 @@ func init() {
 	core.Register(&core.Check{
 		Spec: core.Spec{
 			Prop:        "C13",
-			Rule:        "Valid histories of 6-20 vertices (chains and diamonds from two lagging source nodes, several wallets, every spend covered in every branch) are delivered to fresh synced nodes in PRNG permutations (plus the fully reversed order; thorough: all 720 permutations of a 6-vertex history), with duplicates, retry steps in between and invalid companions (tampered, re-signed by a wrong key, self-sealed child of a not yet known vertex). Per delivery: unknown parent => reported as such and parked (or already admitted by the ticker), known parents => accepted; then the retry path is stepped until the buffer is empty: the final ledger (vertices, graph edges, index) must equal parents-first delivery, nothing admitted twice, no invalid companion in the ledger, buffer <= 500, an orphan whose parent never comes is dropped after a bounded number of retries. Non-trivial = every non-identity permutation; distinct by (size, parked count bucket, retry steps bucket, companions). Every fifth order is delivered through a real gossip service on top of the node's ledger (GossipVrx with the wire form of the vertex) instead of a direct AddLeaf. One batch runs a long-lived node: a valid history of 84 vertices delivered in reversed stages of 21 (each stage within the bounds, more than 800 cumulative parkings over the node's life); it must end with the parents-first ledger. Every delivery runs under a context of its own that ends when the call returns, as a request handler's does. Come and go: tentative overdrawing tips that are not part of the history are admitted and, some deliveries later, dropped by their children, so that between the parking of an orphan and the arrival of its parents the ledger grows and shrinks (fixed scenario with 1-3 such tips and as many parents; every seventh sampled permutation).",
+			Rule:        "Valid histories of 6-20 vertices (chains and diamonds from two lagging source nodes, several wallets, every spend covered in every branch) are delivered to fresh synced nodes in PRNG permutations (plus the fully reversed order; thorough: all 720 permutations of a 6-vertex history), with duplicates, retry steps in between and invalid companions (tampered, re-signed by a wrong key, self-sealed child of a not yet known vertex). Per delivery: unknown parent => reported as such and parked (or already admitted by the ticker), known parents => accepted; then the retry path is stepped until the buffer is empty: the final ledger (vertices, graph edges, index) must equal parents-first delivery, nothing admitted twice, no invalid companion in the ledger, buffer <= 500, an orphan whose parent never comes is dropped after a bounded number of retries. Non-trivial = every non-identity permutation; distinct by (size, parked count bucket, retry steps bucket, companions). Every fifth order is delivered through a real gossip service on top of the node's ledger (GossipVrx with the wire form of the vertex) instead of a direct AddLeaf. One batch runs a long-lived node: a valid history of 84 vertices delivered in reversed stages of 21 (each stage within the bounds, more than 800 cumulative parkings over the node's life); it must end with the parents-first ledger. Every delivery runs under a context of its own that ends when the call returns, as a request handler's does. Come and go: tentative overdrawing tips that are not part of the history are admitted and, some deliveries later, dropped by their children, so that between the parking of an orphan and the arrival of its parents the ledger grows and shrinks (fixed scenario with 1-3 such tips and as many parents; every seventh sampled permutation). Stalled replay routine: four vertices parked, their ancestor delivered, then a local proposal that holds the ledger lock for six seconds (three ticks); all four must be admitted by the node's own ticker afterwards.",
 			Assumptions: []string{"histories stay within the retry bound (<= 20 vertices), so every vertex is admitted for any permutation", ledgerAssume},
 			MinEvals:    300, MinNontriv: 8,
 		},
